@@ -589,10 +589,10 @@ func extractCloseProto(repo, root string) error {
 	}
 	add("queuePutAndCloseWakeTheSender", "batchQueue.Put / Close: cond.Broadcast() (deferred) under the queue's lock; Put refuses when closed; Close sets closed",
 		bcast(qp) && bcast(qc) && p.ifFieldReturns(qp, "closed", contains("false")) >= 0 && firstIdx(qc, func(a atom) bool { return isAssignTrue(a, "closed") }) >= 0)
-	add("queueGetWaitsForPutOrClose", "batchQueue.Get: `for len(queue) == 0 && !closed { cond.Wait() }`, then nil when still empty",
+	add("queueGetWaitsForPutOrClose", "batchQueue.Get: `for <empty> && !closed { cond.Wait() }`, then nil when still empty",
 		firstIdx(qg, func(a atom) bool {
 			f, ok := a.node.(*ast.ForStmt)
-			return ok && f.Cond != nil && strings.Contains(p.src(f.Cond), "closed") && strings.Contains(p.src(f.Cond), "len(") && hasCall(f.Body, false, "cond", "Wait")
+			return ok && f.Cond != nil && strings.Contains(p.src(f.Cond), "!") && mentionsField(f.Cond, "closed") && hasCall(f.Body, false, "cond", "Wait")
 		}) >= 0 && firstIdx(qg, func(a atom) bool { r, ok := a.node.(*ast.ReturnStmt); return ok && strings.Contains(p.src(r), "nil") }) >= 0)
 
 	// ---- ConsumerGroup
@@ -690,7 +690,25 @@ func extractCloseProto(repo, root string) error {
 		if !ok || !hasCall(ifs.Cond, false, "releaseConn") {
 			continue
 		}
-		_, neg := ifs.Cond.(*ast.UnaryExpr)
+		// `!releaseConn(c)` alone or as a disjunct (`!releaseConn(c) || …`)
+		neg := false
+		var disj func(e ast.Expr)
+		disj = func(e ast.Expr) {
+			switch x := e.(type) {
+			case *ast.ParenExpr:
+				disj(x.X)
+			case *ast.BinaryExpr:
+				if x.Op == token.LOR {
+					disj(x.X)
+					disj(x.Y)
+				}
+			case *ast.UnaryExpr:
+				if x.Op == token.NOT && hasCall(x.X, false, "releaseConn") {
+					neg = true
+				}
+			}
+		}
+		disj(ifs.Cond)
 		leaves := false
 		ast.Inspect(ifs.Body, func(m ast.Node) bool {
 			switch x := m.(type) {
